@@ -35,6 +35,8 @@ pub enum TOp {
     /// replace this thread's handle by a fresh clone (the old one is dropped, which hands its
     /// partially filled pages back to the shared table)
     Rehandle,
+    /// call `key_tag` on the input that keys node function (node, arg)
+    Tag { node: u8, arg: u8 },
 }
 
 #[derive(Clone, Debug, PartialEq, Eq, Hash, Serialize, Deserialize)]
@@ -70,7 +72,8 @@ fn gen_plan(t: &mut Tape, prog: &Program, which: Which, max_ops: u32) -> Vec<TOp
     (0..n)
         .map(|_| {
             let k = match which {
-                Which::Readers | Which::Cycles | Which::Proto => 0,
+                Which::Readers => t.weighted(&[5, 0, 0, 0, 1]),
+                Which::Cycles | Which::Proto => 0,
                 Which::Interning => t.weighted(&[3, 4]),
                 Which::Identities => t.weighted(&[3, 2, 4, 2]),
             };
@@ -83,7 +86,11 @@ fn gen_plan(t: &mut Tape, prog: &Program, which: Which, max_ops: u32) -> Vec<TOp
                 }
                 1 => TOp::Intern { ty: t.weighted(&[3, 3, 3, 2]) as u8, x: t.pick(4) },
                 2 => TOp::NewInput { val: t.pick(1000) },
-                _ => TOp::Rehandle,
+                3 => TOp::Rehandle,
+                _ => {
+                    let node = t.pick(nn) as u8;
+                    TOp::Tag { node, arg: t.pick(prog.nodes[node as usize].nargs as u32) as u8 }
+                }
             }
         })
         .collect()
@@ -154,7 +161,14 @@ pub fn gen_shut_case(tape: &[u32], which: Which, iterations: u32) -> ShutCase {
     let pf = profile(which);
     let prog = gen_program(&mut t, &pf);
     let nt = 2 + t.pick(3);
-    let phase1 = (0..nt).map(|_| gen_plan(&mut t, &prog, which, 4)).collect();
+    let mut phase1: Vec<Vec<TOp>> = (0..nt).map(|_| gen_plan(&mut t, &prog, which, 4)).collect();
+    // two different functions storing the very first memos of one input at the same time
+    if which == Which::Readers && t.chance(1, 2) {
+        if let Some(TOp::Get { node, arg }) = phase1[0].first().cloned() {
+            let i = 1 + t.pick(nt - 1) as usize;
+            phase1[i].insert(0, TOp::Tag { node, arg });
+        }
+    }
     let (write, phase2) = if t.chance(1, 2) {
         let slot = t.pick(prog.slots.len() as u32) as u8;
         let w = (slot, t.pick(2) as u8, t.pick(VMOD));
@@ -195,6 +209,7 @@ enum TRes {
     Interned((u8, u32), Result<(u8, u64, u32), Pan>),
     Input(u32, u64, u32),
     Rehandled,
+    Tag((u8, u8), Result<u32, Pan>),
 }
 
 #[derive(Default)]
@@ -250,6 +265,12 @@ fn run_thread(db: VDb, tid: u32, plan: Vec<TOp>) -> Vec<TRes> {
                 use salsa::plumbing::AsId;
                 let p = Probe::new(&db, val);
                 out.push(TRes::Input(val, p.as_id().as_bits(), p.val(&db)));
+            }
+            TOp::Tag { node, arg } => {
+                let arg = arg % db.ctx().prog.nodes[node as usize].nargs;
+                let k = db.ctx().nodekey(node, arg);
+                let r = catch_unwind(AssertUnwindSafe(|| *key_tag(&db, k))).map_err(classify_panic);
+                out.push(TRes::Tag((node, arg), r));
             }
             TOp::Rehandle => {
                 let fresh = db.clone();
@@ -338,6 +359,11 @@ fn check_phase(pc: &PhaseCheck, results: &[Vec<TRes>], log: &[Rec], sh: &Shared,
                     ids.note_input(*id, *val, t as u32 + 1, out);
                 }
                 TRes::Rehandled => {}
+                TRes::Tag((n, a), real) => match real {
+                    Ok(v) if *v == ((*n as u32) << 8 | *a as u32) => {}
+                    Ok(v) => out.push(viol("value-mismatch", format!("phase {}: key_tag({n}, {a}) = {v:#x}", pc.phase))),
+                    Err(p) => out.push(viol("unexpected-panic", format!("phase {}: key_tag({n}, {a}): {}", pc.phase, p.text()))),
+                },
             }
         }
     }
